@@ -15,6 +15,9 @@ structure Reply where
   model : String
   /-- the specification's verdict, when it is executable and directly comparable -/
   spec  : Option String := none
+  /-- alternatively: a validation of the implementation's printed result against the
+      specification; `some msg` = the implementation contradicts the specification -/
+  specCheck : Option (String → Option String) := none
 
 def ok (s : String) : Option Reply := some { model := s }
 /-- the model's value is also the specification's: a theorem in Props proves model = spec for this op -/
